@@ -16,32 +16,22 @@ type kwOpt struct {
 
 // atom slots in canonical order: each slot is one keyword, with a tiny argument domain.
 var schemaAtomSlots = [][]kwOpt{
-	{{"type", "null-absent"}}, // placeholder, replaced in init
-}
-
-func init() {
-	types := []kwOpt{}
-	for _, t := range []string{"boolean", "integer", "number", "string", "array", "object"} {
-		types = append(types, kwOpt{"type", t})
-	}
-	schemaAtomSlots = [][]kwOpt{
-		types,
-		{{"nullable", true}},
-		{{"enum", []any{1.0}}, {"enum", []any{"a"}}, {"enum", []any{1.0, "a"}}, {"enum", []any{[]any{1.0}}}, {"enum", []any{map[string]any{"a": 1.0}}}, {"enum", []any{nil, 1.0}}},
-		{{"minimum", 0.0}, {"minimum", 1.0}, {"minimum", 1.5}, {"minimum+x", 1.0}, {"minimum+x", 1.5}},
-		{{"maximum", 0.0}, {"maximum", 1.0}, {"maximum", 1.5}, {"maximum+x", 1.0}, {"maximum+x", 1.5}},
-		{{"multipleOf", 2.0}, {"multipleOf", 0.5}},
-		{{"minLength", 1.0}, {"minLength", 2.0}},
-		{{"maxLength", 1.0}, {"maxLength", 2.0}},
-		{{"pattern", "^a"}, {"pattern", "b$"}},
-		{{"minItems", 1.0}, {"minItems", 2.0}},
-		{{"maxItems", 1.0}, {"maxItems", 2.0}},
-		{{"uniqueItems", true}},
-		{{"required", []any{"a"}}, {"required", []any{"b"}}, {"required", []any{"a", "b"}}},
-		{{"minProperties", 1.0}, {"minProperties", 2.0}},
-		{{"maxProperties", 1.0}, {"maxProperties", 2.0}},
-		{{"additionalProperties", true}, {"additionalProperties", false}},
-	}
+	{{"type", "boolean"}, {"type", "integer"}, {"type", "number"}, {"type", "string"}, {"type", "array"}, {"type", "object"}},
+	{{"nullable", true}},
+	{{"enum", []any{1.0}}, {"enum", []any{"a"}}, {"enum", []any{1.0, "a"}}, {"enum", []any{[]any{1.0}}}, {"enum", []any{map[string]any{"a": 1.0}}}, {"enum", []any{nil, 1.0}}},
+	{{"minimum", 0.0}, {"minimum", 1.0}, {"minimum", 1.5}, {"minimum+x", 1.0}, {"minimum+x", 1.5}},
+	{{"maximum", 0.0}, {"maximum", 1.0}, {"maximum", 1.5}, {"maximum+x", 1.0}, {"maximum+x", 1.5}},
+	{{"multipleOf", 2.0}, {"multipleOf", 0.5}},
+	{{"minLength", 1.0}, {"minLength", 2.0}},
+	{{"maxLength", 1.0}, {"maxLength", 2.0}},
+	{{"pattern", "^a"}, {"pattern", "b$"}},
+	{{"minItems", 1.0}, {"minItems", 2.0}},
+	{{"maxItems", 1.0}, {"maxItems", 2.0}},
+	{{"uniqueItems", true}},
+	{{"required", []any{"a"}}, {"required", []any{"b"}}, {"required", []any{"a", "b"}}},
+	{{"minProperties", 1.0}, {"minProperties", 2.0}},
+	{{"maxProperties", 1.0}, {"maxProperties", 2.0}},
+	{{"additionalProperties", true}, {"additionalProperties", false}},
 }
 
 // applicator forms: name -> list of (shape) where shape is number of sub-schemas
@@ -68,12 +58,40 @@ func (f applForm) arity() int {
 	return 1
 }
 
-// GenSchema enumerates every schema with at most *budget keyword instances (an applicator costs one
+// Alphabet is a schema alphabet: atom slots and applicator slots in canonical order.
+type Alphabet struct {
+	Atoms [][]kwOpt
+	Appls [][]applForm
+}
+
+// GenSchema enumerates the schemas of the default (C01) alphabet.
+func GenSchema(x *explore.X, budget *int, depth int) map[string]any {
+	return Alphabet{schemaAtomSlots, schemaApplSlots}.Gen(x, budget, depth)
+}
+
+// WithAtoms returns the default alphabet with extra atom slots appended and optional extra
+// argument choices for existing slots (matched by keyword).
+func DefaultAlphabetWith(extraSlots [][]kwOpt, extraOpts []kwOpt) Alphabet {
+	var atoms [][]kwOpt
+	for _, slot := range schemaAtomSlots {
+		ns := append([]kwOpt{}, slot...)
+		for _, o := range extraOpts {
+			if o.key == slot[0].key {
+				ns = append(ns, o)
+			}
+		}
+		atoms = append(atoms, ns)
+	}
+	atoms = append(atoms, extraSlots...)
+	return Alphabet{atoms, schemaApplSlots}
+}
+
+// Gen enumerates every schema with at most *budget keyword instances (an applicator costs one
 // plus its operands), each exactly once: slots are visited in fixed order and a keyword occurs at
 // most once per schema object.
-func GenSchema(x *explore.X, budget *int, depth int) map[string]any {
+func (al Alphabet) Gen(x *explore.X, budget *int, depth int) map[string]any {
 	s := map[string]any{}
-	for _, slot := range schemaAtomSlots {
+	for _, slot := range al.Atoms {
 		if *budget <= 0 {
 			return s
 		}
@@ -100,7 +118,7 @@ func GenSchema(x *explore.X, budget *int, depth int) map[string]any {
 	if depth <= 0 {
 		return s
 	}
-	for _, slot := range schemaApplSlots {
+	for _, slot := range al.Appls {
 		if *budget <= 0 {
 			return s
 		}
@@ -114,7 +132,7 @@ func GenSchema(x *explore.X, budget *int, depth int) map[string]any {
 		}
 		f := slot[c-1]
 		*budget--
-		sub := func() map[string]any { return GenSchema(x, budget, depth-1) }
+		sub := func() map[string]any { return al.Gen(x, budget, depth-1) }
 		switch f.shape {
 		case "one":
 			s[f.key] = sub()
